@@ -1,4 +1,4 @@
-\* thorough: in-memory map, asynchronous writer, refill unit 2 blocks, 13 ranges, 1 eviction, 1 fault
+\* thorough: extent map, inline, refill unit 2 blocks, 9 ranges
 SPECIFICATION Spec
 CONSTANTS
   NF = 1
@@ -8,13 +8,13 @@ CONSTANTS
   Readers = {r1, r2}
   r1 = r1
   r2 = r2
-  ReadSet <- RS_t2
+  ReadSet <- RS_t
   NReads = 1
   MaxEv = 1
-  Async = TRUE
+  Async = FALSE
   MaxRefilling = 2
   Faults = 1
-  Fiemap = FALSE
+  Fiemap = TRUE
   CapFull = FALSE
   ReopenMax = 0
   Bug = "none"
